@@ -22,7 +22,8 @@ META = dict(
 
 PRE = '''void probe(sbx_t& sb, tn<int*>& tgood, tn<int**>& pp, tn<VS*>& ps, tn<int (**)(long)>& pf, tn<int* (*)[3]>& pa, int* raw, const int* craw,
            int (*rawfn)(long), int* (&rawarr)[3], std::array<int*, 3>& rawstd, tn2<int*>& other_t, to2<int*>& other_o, scb2<int (*)(long)>& other_cb,
-           scb<int (*)(long)>& cb_ok, scb<long (*)(int)>& cb_othersig, VS& plainstruct, tn<VS>& tstruct, to<int*>& opq, tn2<VS>& other_struct, tn2<int>& other_int)
+           scb<int (*)(long)>& cb_ok, scb<long (*)(int)>& cb_othersig, VS& plainstruct, tn<VS>& tstruct, to<int*>& opq, tn2<VS>& other_struct, tn2<int>& other_int,
+           tn<char* [3]>& chararr3, tn<int (*(*)[2])(long)>& pfa, tn<long (*[2])(int)>& fnarr_other, tn<int (*[2])(long)>& fnarr_ok)
 {
   %s
 }
@@ -54,6 +55,9 @@ def grid():
     neg.append(('array-of-pointers cell <- std::array of raw pointers', '*pa = rawstd;'))
     neg.append(('tainted<T*[3]> <- C array of raw pointers', 'tn<int* [3]> t = rawarr; (void)t;'))
     pos.append(('array-of-pointers cell <- tainted array', 'tn<int* [3]> t; t[0] = nullptr; t[1] = tgood; t[2] = nullptr; *pa = t;'))
+    neg.append(('array-of-pointers cell <- tainted array of another pointee type', '*pa = chararr3;'))
+    neg.append(('array-of-function-pointers cell <- tainted array of another signature', '*pfa = fnarr_other;'))
+    pos.append(('array-of-function-pointers cell <- tainted array of the same signature', '*pfa = fnarr_ok;'))
     # function pointers
     neg.append(('tainted<Fn> <- raw function pointer', 'tn<int (*)(long)> t = rawfn; (void)t;'))
     neg.append(('tainted_volatile<Fn> <- raw function pointer', '*pf = rawfn;'))
